@@ -90,8 +90,9 @@ def prepare(ob: Ob):
     insts = instantiate(ground + [target], schemas)
     if use_classes:
         terms = {}
+        from .ground import _is_ground
         for t in collect(ground + insts + [target]):
-            if z3.is_app(t) and t.sort() == Cls:
+            if z3.is_app(t) and t.sort() == Cls and _is_ground(t):
                 terms[t.get_id()] = t
         insts = insts + class_theory_instances(list(terms.values()))
     ob.meta["instances"] = len(insts)
@@ -198,10 +199,31 @@ def _pool_job(i):
 
 
 CURRENT = None
+LAST_FUNC = None        # the function most recently handed to Interp.run_function
 
 
 class Check:
     """One run of one property's check."""
+
+    def abort_unsupported(self, qualname, reason):
+        """A contract clause could not even be *stated* over the function's result (an engine limit met after
+        interpretation, e.g. the function now returns a shape the clause cannot be lowered over): every ledger clause of
+        that function is undischarged, with the engine's reason attached; never a crash."""
+        self.aborted_on = qualname
+        ledger = self.load_ledger() or {"clauses": {}}
+        have = {ob.key for ob in self.obs if ob.expect == "unsat"}
+        hit = 0
+        for k in ledger["clauses"]:
+            func, clause = k.split(" :: ", 1)
+            if func == qualname:
+                ob = Ob(func, clause, "clause-not-expressible", [], z3.BoolVal(False), {"engine": reason[:300]})
+                ob.result, ob.backend = "sat", "none (engine limit at clause time)"
+                self.obs.append(ob)
+                hit += 1
+        if not hit:
+            self.errors.append(f"engine limit while stating the clauses of {qualname}: {reason[:200]}")
+        self.resolve_failures(None)
+        return self.finish()
 
     def abort_missing(self, qualname):
         """A function under contract is gone from the source: every ledger clause about it is undischarged (a violation
@@ -352,11 +374,13 @@ class Check:
         self.missing_handled = set()
         if not update:
             for k in ledger["clauses"]:
-                if k not in st and k.split(" :: ")[0] in funcs_now:
+                # (a clause of a function that produced no obligation at all is undischarged in the same way: the checks
+                #  generate every clause of a function they analyse, so on the unchanged tree this cannot happen)
+                if k not in st and (k.split(" :: ")[0] in funcs_now or self.aborted_on is None):
                     func, clause = k.split(" :: ", 1)
                     ob = Ob(func, clause, "not-generated", [], z3.BoolVal(False),
                             {"note": "obligation present in the ledger was not generated from the current source "
-                                     "(the function no longer reaches it)"})
+                                     "(the function no longer reaches it, or could not be analysed at all)"})
                     ob.result, ob.backend = "sat", "none (structural)"
                     self.obs.append(ob)
                     st[k] = "failed"
